@@ -234,6 +234,16 @@ class Program:
             if len(parts) == 2 and parts[0] in m.classes:
                 f = self.lookup_method(m.classes[parts[0]], parts[1])
         if f is None:
+            parts = dotted.split(".")
+            outer = self.functions.get("%s.%s" % (m.name, ".".join(parts[:-1]))) if len(parts) > 1 else None
+            if outer is not None:
+                # a closure: it may have moved, with the code around it, into a helper of the same module
+                cands = [g for q2, g in self.functions.items() if g.module is m and g.parent is not None and q2.endswith("." + parts[-1])]
+                if len(cands) == 1:
+                    f = cands[0]
+                else:
+                    raise Undecided("the closure %s of %s is no longer inside it (%d functions of that name in the module): no verdict" % (parts[-1], ".".join(parts[:-1]), len(cands)))
+        if f is None:
             raise AnalysisError("anchor function %s:%s not found" % (relpath, dotted))
         self.consulted.add(f.module.name)
         return f
